@@ -74,6 +74,17 @@ class Clock:
         if not code.co_filename.startswith(PKG_DIR):
             return sys.monitoring.DISABLE
         self.count += 1
+        if self.budget is not None and self.count > self.budget and not self.fired:
+            if code.co_name in ("__enter__", "__exit__"):
+                return None
+            self.fired = True
+            self.abort_stack = []
+            fr = sys._getframe(1)  # pylint: disable=protected-access
+            while fr is not None and len(self.abort_stack) < 60:
+                if fr.f_code.co_filename.startswith(PKG_DIR):
+                    self.abort_stack.append(f"{os.path.basename(fr.f_code.co_filename)}:{fr.f_code.co_name}")
+                fr = fr.f_back
+            raise LogicalBudgetExceeded(self.count)
         return None
 
     @contextlib.contextmanager
